@@ -65,7 +65,7 @@ class SignalAnchors:
         fields = [st.target.id for st in self.Signal.node.body if isinstance(st, ast.AnnAssign) and isinstance(st.target, ast.Name)]
         for f in self.p.all_functions():
             for n, mu in self.a.func_mutations(f):
-                if mu.kind in ("call:append", "call:add") and len(mu.path) >= 2 and mu.path[-1] in fields:
+                if mu.kind in ("call:append", "call:add", "call:insert", "call:extend") and len(mu.path) >= 2 and mu.path[-1] in fields:
                     return mu.path[-1]
         raise AnalysisError("anchor-missing subscriber list attribute (no append to a Signal list field)")
 
@@ -337,6 +337,39 @@ def run(ctx) -> None:
         sends = [n for n in ucfg.live_nodes() if any(call_name(cl) in ("send_nowait", "send") for cl, _ in a.node_calls(user, ucfg, n))]
         ok = bool(guards) and all(any(ucfg.dominates(g.id, e.id) for g in guards) for e in effects + sends)
         rep.check("C11.R4", ok, user, user.node, "the bound-ness guard dominates every effect", "an effect (subscription / delivery / stamping) is reachable without the bound-ness guard: using the signal through the class is not rejected with UnboundSignal")
+    # Comparing signals (`==`, `in` on a list of signals, list.index/count/remove) runs the
+    # dataclass-generated __eq__, which reads every compare-field - including the instance
+    # reference a class-level declaration does not have: AttributeError instead of UnboundSignal.
+    sig_cls = sa.Signal
+    eq_generated = "dataclass" in sig_cls.decorators and "__eq__" not in sig_cls.methods and not any(isinstance(d, ast.Call) and any(k.arg == "eq" and isinstance(k.value, ast.Constant) and k.value.value is False for k in d.keywords) for d in sig_cls.node.decorator_list)
+    if eq_generated:
+        cmp_sites = []
+        for g in ctx.p.all_functions():
+            if g.module is not sig_cls.module or g.is_lambda:
+                continue
+            sig_vars = set()
+            for p_ in g.params:
+                ann = g.param_annotation(p_)
+                if ann is not None and sig_cls.name in ast.unparse(ann) and p_ != "self":
+                    sig_vars.add(p_)
+            for n in walk_own(g.node):
+                if isinstance(n, (ast.For, ast.AsyncFor)) and isinstance(n.target, ast.Name) and isinstance(n.iter, ast.Name) and n.iter.id in sig_vars:
+                    sig_vars.add(n.target.id)
+            elem_vars = {n.target.id for n in walk_own(g.node) if isinstance(n, (ast.For, ast.AsyncFor)) and isinstance(n.target, ast.Name) and isinstance(n.iter, ast.Name) and n.iter.id in sig_vars}
+            for n in walk_own(g.node):
+                if isinstance(n, ast.Compare) and any(isinstance(o, (ast.In, ast.NotIn, ast.Eq, ast.NotEq)) for o in n.ops):
+                    operands = [n.left] + list(n.comparators)
+                    if any(isinstance(o, ast.Name) and o.id in elem_vars for o in operands):
+                        cmp_sites.append((g, n))
+                elif isinstance(n, ast.Call) and isinstance(n.func, ast.Attribute) and n.func.attr in ("index", "count", "remove") and any(isinstance(x, ast.Name) and x.id in elem_vars for x in n.args):
+                    cmp_sites.append((g, n))
+        for g, n in cmp_sites:
+            gcfg = a.cfg(g)
+            nn = gcfg.nodes_containing(n)
+            guards_g = [x for x in gcfg.live_nodes() if any(cal.kind == "func" and cal.func in helpers for _c, cal in a.node_calls(g, gcfg, x))] + inline_guards(g)
+            guarded = bool(nn) and bool(guards_g) and any(gcfg.dominates(gg.id, nn[0].id) for gg in guards_g)
+            rep.check("C11.R4", guarded, g, n, "signals are compared only after the bound-ness guard", f"`{ast.unparse(n)[:60]}` compares Signal objects with the dataclass-generated __eq__ before any bound-ness check: for a class-level (unbound) signal that raises AttributeError, not UnboundSignal")
+
     # the declaration object never gets the instance attribute
     bad = []
     for m in sa.Signal.methods.values():
@@ -391,6 +424,26 @@ def run(ctx) -> None:
             else:
                 rep.violate("C11.R6", f, ctxt[2], f"the owner instance escapes into {ctxt[1]}: a strong reference keeps it alive")
     rep.floor("C11.R6", uses, 3)
+    # ... nor does USING a bound signal: a local that holds the dereferenced owner
+    # (`owner = self._instance()`) in a function that then suspends (a generator-based context
+    # manager stays suspended for the whole subscription) pins the owner for that long
+    for g in ctx.p.all_functions():
+        if g.module is not sa.Signal.module or g.is_lambda:
+            continue
+        derefs = [n for n in walk_own(g.node) if isinstance(n, ast.Assign) and len(n.targets) == 1 and isinstance(n.targets[0], ast.Name) and isinstance(n.value, ast.Call) and isinstance(n.value.func, ast.Attribute) and n.value.func.attr == sa.instance_attr]
+        if not derefs:
+            continue
+        gcfg = a.cfg(g)
+        for d in derefs:
+            v = d.targets[0].id
+            dn = gcfg.nodes_containing(d)
+            if not dn:
+                continue
+            kills = [x.id for x in gcfg.live_nodes() if x.kind == "stmt" and ((isinstance(x.ast, ast.Delete) and any(isinstance(t, ast.Name) and t.id == v for t in x.ast.targets)) or (isinstance(x.ast, ast.Assign) and x.ast is not d and any(isinstance(t, ast.Name) and t.id == v for t in x.ast.targets)))]
+            after = gcfg.reach([s_ for s_, _l in dn[0].succ], avoid=kills)
+            susp = [gcfg.nodes[i] for i in after if gcfg.own_ast(gcfg.nodes[i]) is not None and any(isinstance(e, (ast.Yield, ast.YieldFrom, ast.Await)) for e in iter_own(gcfg.own_ast(gcfg.nodes[i])))]
+            susp += [gcfg.nodes[i] for i in after if gcfg.nodes[i].kind in ("with_enter", "for_next") and getattr(gcfg.nodes[i], "is_async", False)]
+            rep.check("C11.R6", not susp, g, d, f"`{v}` (the dereferenced owner) is not alive across a suspension", f"`{v} = {ast.unparse(d.value)}` keeps a strong reference to the owner in a frame that then suspends ({'yield' if g.is_generator else 'await'}): while a subscription / wait is pending the owner cannot be garbage collected")
 
     # ---------------- R7 : fresh subscriber list per bound signal
     fresh = False
